@@ -83,6 +83,16 @@ func ReactScenarios() []History {
 		mod("c2", cheap, 2, 2, 3, 1, "", "", 0),         // 4 cheap
 		mod("c2", cheap, 2, 2, 3, 1, "", "", 0),         // 5 cheap
 		mod("c2", both, 2, 2, 3, 1, "pause", "cap1", 5), // 6 expensive: re-caps / pauses 5
+		// (a user's context is open to any module: w1 holds nothing, its module contexts are never paid for, and
+		// they pause / kill contexts of c1 that are due in the same block - before or after them)
+		Ev{Name: "Call", Signer: "c1", Svc: "s1", Provs: cheap, Cap: 10, Timeout: 2, Rep: true, Freq: 2, Total: 3}, // 7
+		mod("w1", cheap, 2, 2, 3, 1, "", "pause", 7), // 8
+		mod("w1", cheap, 2, 2, 3, 1, "", "kill", 10), // 9
+		Ev{Name: "Call", Signer: "c1", Svc: "s1", Provs: cheap, Cap: 10, Timeout: 2, Rep: true, Freq: 2, Total: 3}, // 10
+		Ev{Name: "Call", Signer: "c1", Svc: "s1", Provs: cheap, Cap: 10, Timeout: 2, Rep: true, Freq: 2, Total: 3}, // 11
+		mod("w1", cheap, 2, 2, 3, 1, "", "kill", 11),  // 12
+		mod("w1", cheap, 2, 2, 3, 1, "", "pause", 14), // 13
+		Ev{Name: "Call", Signer: "c1", Svc: "s1", Provs: cheap, Cap: 10, Timeout: 2, Rep: true, Freq: 2, Total: 3}, // 14
 		eb(1), // c2 holds 20: not enough for all the expensive ones (12 each)
 		Ev{Name: "Obs"},
 		Ev{Name: "BankSend", Signer: "o2", To: "c2", Amount: 400},
